@@ -504,6 +504,16 @@ func (f *frame) invEnv(li *loopInfo, heap *Heap, phiVals map[*ssa.Phi]Val, at *s
 			break
 		}
 	}
+	env.headVars = map[string]Val{}
+	for _, in := range li.header.Instrs {
+		if phi, ok := in.(*ssa.Phi); ok {
+			if v, ok := li.phiCur[phi]; ok && phi.Comment != "" {
+				env.headVars[phi.Comment] = v
+			}
+		} else {
+			break
+		}
+	}
 	env.lookup = f.lookupLocal(li, phiVals, at)
 	// a parameter that was reassigned before the loop: its name means the current value (name0 the entry value)
 	for _, p := range f.fn.Params {
